@@ -163,7 +163,22 @@ def run(ctx):
                      'comparison with all labelled spanning trees inside Lean (mstBrute_sound)')
 
 
+_run_core = run
+
+
+def run(ctx):
+    _run_core(ctx)
+    if ctx.n_new() == 0 and ctx.driver_ok:
+        from harness.common import run_demo
+        if ctx.n_new() == 0:
+            run_demo(ctx, 'demo_tr4.py', [1 + ctx.seed], 'c11-code-vs-generated-vs-model-4',
+                     'compute_clt_parameters / mutual information vs generated definitions vs model', env_extra=dict(DEMO_SECTIONS='d'))
+
+
 def replay(rep):
+    if rep['replay'].get('kind') == 'demo':
+        from harness.common import replay_demo
+        return replay_demo(rep['replay'])
     r = rep['replay']
     X = np.array(r['data'])
     nv = X.shape[1]
